@@ -215,6 +215,8 @@ def eval_case(case):
 def run(ctx):
     cases = []
     sizes = sorted(set(list(range(512, 16385, 64)) + [b for c in (2048, 3072) for b in range(c - 128, c + 129, 8)]))
+    if not ctx.quick:
+        sizes = sorted(set(sizes + list(range(512, 16385, 8))))        # every multiple of 8 bits
     fam_orders = [list(p) for n in (1, 2, 3) for p in itertools.permutations(RSA_FAMILY, n)]
     q = False           # the whole grid in both tiers: a complete run takes seconds
     for i, b in enumerate(sizes):
@@ -231,12 +233,12 @@ def run(ctx):
         cases.append({'kind': 'ed', 'keys': ['ssh-ed25519'], 'kex': kx})
     cases.append({'kind': 'ed', 'keys': ['ssh-ed448']})
     cas = [{'t': 'ed25519'}] + [{'t': 'ecdsa', 'curve': c} for c in ('nistp256', 'nistp384', 'nistp521')]
-    ca_sizes = [1024, 1536, 2040, 2048, 2112, 3064, 3072, 4096, 8192] if q else sorted(set(list(range(512, 8193, 256)) + [2040, 3064] + list(range(1920, 2177, 16)) + list(range(2944, 3201, 16))))
-    host_sizes = [1024, 2048, 3072, 4096] if q else [1024, 2040, 2048, 2560, 3064, 3072, 4096, 8192]
+    ca_sizes = [1024, 1536, 2040, 2048, 2112, 3064, 3072, 4096, 8192] if ctx.quick else sorted(set(list(range(512, 8193, 256)) + [2040, 3064] + list(range(1920, 2177, 16)) + list(range(2944, 3201, 16))))
+    host_sizes = [1024, 2048, 3072, 4096] if ctx.quick else [1024, 2040, 2048, 2560, 3064, 3072, 4096, 8192]
     name_sets = [[RSA_CERTS[0]], [RSA_CERTS[2], RSA_CERTS[1]], RSA_CERTS]
     for i, cs in enumerate(ca_sizes):
         for j, hs in enumerate(host_sizes):
-            if q and (i + j) % 2:
+            if ctx.quick and (i + j) % 2:
                 continue
             cases.append({'kind': 'cert', 'inner': 'rsa', 'bits': hs, 'ca': {'t': 'rsa', 'bits': cs}, 'keys': name_sets[(i + j) % 3]})
         cases.append({'kind': 'cert', 'inner': 'ed25519', 'ca': {'t': 'rsa', 'bits': cs}, 'keys': [ED_CERT]})
